@@ -262,6 +262,8 @@ def key_of(desc) -> str:
 def evaluate(stream: Stream, descs: list, prefix: str):
     """Returns list of verdict strings (same order). Implementation exceptions inside run() that
     are not part of the case's observation are reported as 'HarnessError:<msg>'."""
+    if hasattr(stream, "custom_eval"):
+        return stream.custom_eval(descs, prefix)
     terms, idx, verdicts = [], [], [None] * len(descs)
     for i, d in enumerate(descs):
         try:
@@ -443,7 +445,7 @@ def run_check(prop: str, streams: list[Stream], tier: str, seed: int, *, level_t
             reported += 1
             rp = os.path.join(replay_dir, f"{st.name}_{key_of(d)}.json")
             try:
-                term = st.run(d)
+                term = st.run(d) if not hasattr(st, "custom_eval") else "(see python_repro)"
             except Exception as ex:
                 term = f"(* driver failed: {ex} *)"
             write_json(rp, {"property": prop, "stream": st.name, "verdict": v, "desc": d,
@@ -480,7 +482,7 @@ def run_check(prop: str, streams: list[Stream], tier: str, seed: int, *, level_t
         "violations": len(violations),
     }
     if extra:
-        ev["coverage"].update(extra)
+        ev["coverage"].update(extra() if callable(extra) else extra)
     write_json(os.path.join(os.environ.get("VERIF_EVIDENCE_DIR", os.path.join(VERIF, "evidence")), f"{prop}.json"), ev)
     for line in known_lines:
         print(line)
